@@ -220,6 +220,10 @@ func runBack(res *core.CaseResult, c core.CaseDesc, p caseP) {
 func runResume(res *core.CaseResult, c core.CaseDesc, p caseP) {
 	r := gen.NewRand(c.Seed, 23)
 	w := newWorld(r, "c17res")
+	if p.Class != "burst" {
+		w.m.Dispose()
+		w = newWorldAuto(r, "c17res", 0)
+	}
 	defer w.m.Dispose()
 	cfg := genCfg(r, "plain", w.spec.Names)
 	cfg.MaxRecords = 0
